@@ -167,6 +167,9 @@ func Run(cfg Config, root func()) *Result {
 // Cwd returns the virtual working directory of the run in progress.
 func Cwd() string { return K.cfg.Cwd }
 
+// EpochNano returns the wall-clock instant (Unix nanoseconds) of simulated time zero.
+func EpochNano() int64 { return K.cfg.Epoch.UnixNano() }
+
 // Aborting reports whether the current run is being unwound; facade
 // operations are no-ops then.
 func Aborting() bool { return K != nil && K.aborting }
